@@ -11,6 +11,7 @@ import (
 	"fmt"
 	"net"
 	"net/url"
+	"strings"
 
 	"github.com/saucelabs/forwarder/log"
 )
@@ -43,6 +44,9 @@ func NewCredentialsMatcher(credentials []*HostPortUser, log log.StructuredLogger
 		if err := hpu.Validate(); err != nil {
 			return nil, withRowInfo(err)
 		}
+
+		// Host names are case-insensitive.
+		hpu.Host = strings.ToLower(hpu.Host)
 
 		switch {
 		case hpu.Host == "*" && hpu.Port == "0":
@@ -105,6 +109,8 @@ func (m *CredentialsMatcher) Match(hostport string) *url.Userinfo {
 	if m == nil {
 		return nil
 	}
+
+	hostport = strings.ToLower(hostport)
 
 	if u, ok := m.hostport[hostport]; ok {
 		m.log.Debug(hostport)
